@@ -197,17 +197,22 @@ func numeralOf(text string) (float64, bool) {
 	return f, err == nil
 }
 
-func check(r *ev.Report, text string, keyState string) {
+// keyNames: the key itself is remote content too (error texts quote it)
+var keyNames = []string{"k", "", "100%", "%d", "a%sb", "%", "%!v(PANIC=x)", "k\n", "\u00e9\u5b57"}
+
+func check(r *ev.Report, text string, keyState string, key string) {
+	kq, _ := json.Marshal(key)
+	k := string(kq)
 	var doc string
 	switch keyState {
 	case "present":
-		doc = `{"k":` + text + `}`
+		doc = `{` + k + `:` + text + `}`
 	case "absent":
-		doc = `{"other":` + text + `}`
+		doc = `{"other-` + key[:0] + `":` + text + `}`
 	case "duplicate":
-		doc = `{"k":null,"k":` + text + `}`
+		doc = `{` + k + `:null,` + k + `:` + text + `}`
 	case "shadowed":
-		doc = `{"k":` + text + `,"k":null}`
+		doc = `{` + k + `:` + text + `,` + k + `:null}`
 	}
 	var m map[string]any
 	if err := json.Unmarshal([]byte(doc), &m); err != nil {
@@ -215,34 +220,34 @@ func check(r *ev.Report, text string, keyState string) {
 		return
 	}
 	o := object.Object(m)
-	v, present := m["k"]
+	v, present := m[key]
 
 	report := func(acc string, want, got outcome) {
 		if want == got {
 			return
 		}
-		key := "accessor:" + acc + ":" + want.Class + "->" + got.Class
+		vkey := "accessor:" + acc + ":" + want.Class + "->" + got.Class
 		if got.Class == "PANIC" {
-			key = "accessor:" + acc + ":panic"
+			vkey = "accessor:" + acc + ":panic"
 		} else if want.Class == got.Class {
-			key = "accessor:" + acc + ":value"
+			vkey = "accessor:" + acc + ":value"
 			if acc == "GetNumber" {
 				f, _ := v.(float64)
 				if f < 0 {
-					key += ":negative"
+					vkey += ":negative"
 				} else if f >= 18446744073709551616.0 {
-					key += ":too-large"
+					vkey += ":too-large"
 				}
 			}
 		} else if acc == "GetNumber" {
 			f, _ := v.(float64)
 			if f < 0 {
-				key += ":negative"
+				vkey += ":negative"
 			} else if f >= 18446744073709551616.0 {
-				key += ":too-large"
+				vkey += ":too-large"
 			}
 		}
-		r.Violation(key, map[string]any{"json": doc, "accessor": acc, "want": want, "got": got})
+		r.Violation(vkey, map[string]any{"json": doc, "accessor": acc, "want": want, "got": got, "key": key, "value_text": text, "key_state": keyState})
 	}
 
 	// GetAny
@@ -252,7 +257,7 @@ func check(r *ev.Report, text string, keyState string) {
 			want = outcome{clAbsent, ""}
 		}
 		got := safe(func() outcome {
-			x, err := o.GetAny("k")
+			x, err := o.GetAny(key)
 			if err != nil {
 				return outcome{classifyErr(err), ""}
 			}
@@ -267,7 +272,7 @@ func check(r *ev.Report, text string, keyState string) {
 	{
 		cl, s := refString(present, v)
 		got := safe(func() outcome {
-			x, err := o.GetString("k")
+			x, err := o.GetString(key)
 			if err != nil {
 				return outcome{classifyErr(err), ""}
 			}
@@ -291,7 +296,7 @@ func check(r *ev.Report, text string, keyState string) {
 			want = outcome{clOK, bi.String()}
 		}
 		got := safe(func() outcome {
-			x, err := o.GetNumber("k")
+			x, err := o.GetNumber(key)
 			if err != nil {
 				return outcome{classifyErr(err), ""}
 			}
@@ -312,7 +317,7 @@ func check(r *ev.Report, text string, keyState string) {
 			want = outcome{clOK, fmt.Sprintf("%#v", mm)}
 		}
 		got := safe(func() outcome {
-			x, err := o.GetObject("k")
+			x, err := o.GetObject(key)
 			if err != nil {
 				return outcome{classifyErr(err), ""}
 			}
@@ -333,7 +338,7 @@ func check(r *ev.Report, text string, keyState string) {
 			want = outcome{clOK, fmt.Sprintf("%#v", []any{v})}
 		}
 		got := safe(func() outcome {
-			x, err := o.GetList("k")
+			x, err := o.GetList(key)
 			if err != nil {
 				return outcome{classifyErr(err), ""}
 			}
@@ -353,7 +358,7 @@ func check(r *ev.Report, text string, keyState string) {
 			}
 		}
 		got := safe(func() outcome {
-			x, err := o.GetTime("k")
+			x, err := o.GetTime(key)
 			if err != nil {
 				return outcome{classifyErr(err), ""}
 			}
@@ -372,7 +377,7 @@ func check(r *ev.Report, text string, keyState string) {
 			}
 		}
 		got := safe(func() outcome {
-			x, err := o.GetURL("k")
+			x, err := o.GetURL(key)
 			if err != nil {
 				return outcome{classifyErr(err), ""}
 			}
@@ -394,7 +399,7 @@ func check(r *ev.Report, text string, keyState string) {
 			}
 		}
 		got := safe(func() outcome {
-			x, err := o.GetMediaType("k")
+			x, err := o.GetMediaType(key)
 			if err != nil {
 				return outcome{classifyErr(err), ""}
 			}
@@ -451,13 +456,16 @@ func checkMarkup(r *ev.Report, content, mediaType string) {
 func main() {
 	r := ev.New("C17", "exploration",
 		"complete product of a JSON value grammar (null, booleans, ~900 numerals around every power of two up to 2^70 in three notations, "+
-			"strings incl. all 65 control code points, timestamps, URLs, media types, arrays, objects) x key state {present, absent, duplicate key, null-shadowed} x the 8 single-key accessors, "+
+			"strings incl. all 65 control code points, timestamps, URLs, media types, arrays, objects) x key state {present, absent, duplicate key, null-shadowed} x 9 key names (plain, empty, with % verbs, newline, non-ASCII) x the 8 single-key accessors, "+
 			"plus GetMarkup on all (content, mediaType) pairs of a reduced value set; values are decoded by encoding/json exactly as jtp does; "+
 			"distinct_nontrivial counts distinct (value, accessor) pairs whose value is present and non-null")
 	if *ev.FlagReplay != "" {
 		var d struct {
 			JSON     string `json:"json"`
 			Accessor string `json:"accessor"`
+			Key      string `json:"key"`
+			Text     string `json:"value_text"`
+			State    string `json:"key_state"`
 		}
 		ev.LoadReplay(*ev.FlagReplay, &d)
 		if d.Accessor == "GetMarkup" {
@@ -465,8 +473,10 @@ func main() {
 			json.Unmarshal([]byte(d.JSON), &m)
 			checkMarkup(r, string(m["content"]), string(m["mediaType"]))
 		} else {
-			text := strings.TrimSuffix(strings.TrimPrefix(d.JSON, `{"k":`), "}")
-			check(r, text, "present")
+			if d.State == "" {
+				d.Key, d.State, d.Text = "k", "present", strings.TrimSuffix(strings.TrimPrefix(d.JSON, `{"k":`), "}")
+			}
+			check(r, d.Text, d.State, d.Key)
 		}
 		r.Eval(1)
 		r.Distinct("a")
@@ -476,8 +486,10 @@ func main() {
 	vals := allValues()
 	for _, v := range vals {
 		for _, ks := range []string{"present", "absent", "duplicate", "shadowed"} {
-			check(r, v, ks)
-			r.Eval(8)
+			for _, key := range keyNames {
+				check(r, v, ks, key)
+				r.Eval(8)
+			}
 		}
 		if v != "null" {
 			for a := 0; a < 8; a++ {
